@@ -6,11 +6,13 @@ drv_sort: script lines
   slice <mode> <keys> | <nvals>
       <keys>  comma separated ints, `-` = empty;  values are 0,1,…,nvals-1 (identified by original index)
       <mode>  int | str        less(i,j) = keys[i] < keys[j]      (str: the harness uses []string keys, same order)
+              intb strb spre ssuf swin smix   as int (the harness varies element types / memory sharing of the strings)
               adv=<seed>       less(i,j) = mix(seed, i, j)         (inconsistent, index based)
               advk=<seed>      less(i,j) = mix(seed, keys[i], keys[j])   (inconsistent, content based)
     output:  k <keys> v <vals> n <number of Less calls> h <hash of the Less log> [log i:j:r …]   (log for min ≤ 16)
              or `panic` if some index passed to Less/Swap is ≥ min(len keys, nvals)
-  unique <int|str> <elems>
+  multi <kcap> <vcap> | <mode> <keys> <nv> | …     several calls, outputs joined by ` | `
+  unique <kind> <elems>
     output:  r <returned slice> b <backing array after the call>   or `panic`
 -/
 namespace Got.Drv.Sort
@@ -78,8 +80,8 @@ def runSlice (mode : String) (keys : Array Int) (nv : Nat) : String :=
   let n := min keys.size nv
   let less? : Option (LessFn Int Nat) :=
     match mode.splitOn "=" with
-    | ["int"] => some (stdLess (fun (x y : Int) => decide (x < y)))
-    | ["str"] => some (stdLess (fun (x y : Int) => decide (x < y)))
+    | ["int"] | ["str"] | ["intb"] | ["strb"] | ["spre"] | ["ssuf"] | ["swin"] | ["smix"] =>
+      some (stdLess (fun (x y : Int) => decide (x < y)))
     | ["adv", sd] => sd.toNat?.map fun z => advLess (UInt64.ofNat z)
     | ["advk", sd] => sd.toNat?.map fun z => advkLess (UInt64.ofNat z)
     | _ => none
@@ -92,7 +94,22 @@ def runUnique (elems : Array Int) : String :=
   | some (r, b) => joinSp ["r", showInts r, "b", showInts b]
   | none => "panic"
 
+/-- `multi <kcap> <vcap> | <mode> <keys> <nv> | …` : the harness reuses one backing array for all steps; the model is
+    stateless, every step is an independent `sliceBy` on the step's contents -/
+def runMulti (line : String) : String :=
+  match line.splitOn " | " with
+  | [] => "bad-op"
+  | _ :: steps =>
+    " | ".intercalate (steps.map fun st =>
+      match words st with
+      | [mode, ks, nv] =>
+        match parseInts? ks, nv.toNat? with
+        | some keys, some nv => runSlice mode keys nv
+        | _, _ => "bad-op"
+      | _ => "bad-op")
+
 def step (_ : Unit) (line : String) : Unit × String :=
+  if line.startsWith "multi " then ((), runMulti line) else
   match words line with
   | ["slice", mode, ks, "|", nv] =>
     match parseInts? ks, nv.toNat? with
